@@ -9,7 +9,9 @@
    `creach_clean fa s` = additionally no NATIVE Task.cancel() landed inside wait()'s shielded re-acquire
    (documented scope: AnyIO cancellation cannot do that).
    `no_late_handover s0 ops` = no step of `ops` hands a notification over to a waiter that began to wait after the
-   notify call that issued it (known finding F18, refuted without the hypothesis below). *)
+   notify call that issued it (known finding F18, refuted without the hypothesis below).
+   Quantification: one event loop.  Observation (not a C11 clause): an Event whose wait() was started in one event
+   loop cannot be waited on in a second `anyio.run` (the backend asyncio.Event is bound to the first loop). *)
 From AV Require Import Base Lock LockProofs EventCond EventCondProofs EventCondThms.
 
 (* ---------------- Event ---------------- *)
